@@ -57,7 +57,7 @@ func serveWhole(t *testing.T, root, wirePath string) (data []byte, size int64, w
 func TestC20(t *testing.T) {
 	r := NewReporter(t)
 	defer r.Done()
-	r.Rule("make-iso on every tree with <= N nodes in both modes and on size families: output file = library image = served image (variable fields masked), also to stdout, and to a slowly read pipe while member files are appended to; decrypt redump / 3k3y on images over region tables x keys (and images that do not end on a sector boundary): output = reference plaintext (region table cleared; 3k3y area zeroed), to a file and to '-', and served back unchanged from PS3ISO and elsewhere; existing targets {file, directory, symlink to file} x 3 commands keep hash/size/mtime and the tool exits non-zero; output '-' with standard output being an existing file (append / positioned at end) x 3 commands x {succeeding, failing} run keeps the existing bytes in front; distinct by case description")
+	r.Rule("make-iso on every tree with <= N nodes in both modes and on size families: output file = library image = served image (variable fields masked), also to stdout, with the directory given as a symbolic link / with a trailing slash / '/.' / relative / through '..', and to a slowly read pipe while member files are appended to; decrypt redump / 3k3y on images over region tables x keys (and images that do not end on a sector boundary): output = reference plaintext (region table cleared; 3k3y area zeroed), to a file and to '-', and served back unchanged from PS3ISO and elsewhere; existing targets {file, directory, symlink to file} x 3 commands keep hash/size/mtime and the tool exits non-zero; output '-' with standard output being an existing file (append / positioned at end) x 3 commands x {succeeding, failing} run keeps the existing bytes in front; distinct by case description")
 	base := filepath.Join(scratchBase(), sprintf("verifh-c20-%d", os.Getpid()))
 	defer os.RemoveAll(base)
 	env := cleanEnv(base)
@@ -181,6 +181,75 @@ func TestC20(t *testing.T) {
 			mkFileAbs(filepath.Join(dir, "a.bin"), sz, 5, baseTime)
 			mkFileAbs(filepath.Join(dir, "sub", "b.bin"), 1, 6, baseTime)
 		})
+	}
+	// the directory argument spelled in other ways (a symbolic link with a name of its own, a trailing slash, '/.', a
+	// relative path): the image is the one the server serves for that directory under the name the operator used
+	for si, sp := range []string{"link", "trailing-slash", "slash-dot", "relative", "dot-dot"} {
+		for _, ps3 := range []bool{false, true} {
+			idx++
+			if !r.Mine(idx) || r.TimeUp() {
+				continue
+			}
+			os.RemoveAll(base)
+			root := filepath.Join(base, "root")
+			store := filepath.Join(base, "store", "DISK0001")
+			must(os.MkdirAll(filepath.Join(base, "out"), 0o755))
+			mkFileAbs(filepath.Join(store, "a.bin"), 3000, 5, baseTime)
+			mkFileAbs(filepath.Join(store, "sub", "b.bin"), 2048, 6, baseTime)
+			if ps3 {
+				writeFileAbs(filepath.Join(store, "PS3_GAME", "PARAM.SFO"), mkSFO([]sfoKV{{"TITLE_ID", "BLES01234"}}), baseTime)
+			}
+			must(os.MkdirAll(root, 0o755))
+			arg, wire := "", "MYGAME"
+			switch sp {
+			case "link":
+				must(os.Symlink(store, filepath.Join(root, "MYGAME")))
+				arg = filepath.Join(root, "MYGAME")
+			default:
+				must(os.Rename(store, filepath.Join(root, "MYGAME")))
+				switch sp {
+				case "trailing-slash":
+					arg = filepath.Join(root, "MYGAME") + "/"
+				case "slash-dot":
+					arg = filepath.Join(root, "MYGAME") + "/."
+				case "relative":
+					arg = "root/MYGAME"
+				case "dot-dot":
+					arg = filepath.Join(root, "MYGAME", "sub", "..")
+				}
+			}
+			key := sprintf("make-iso of a directory given as %s ps3=%v", sp, ps3)
+			r.State(key)
+			r.Nontrivial(key)
+			r.Eval(1)
+			rep := map[string]any{"case": key, "argument": arg}
+			args := []string{"make-iso"}
+			pre := "/***DVD***/" + wire
+			if ps3 {
+				args = append(args, "--ps3-mode")
+				pre = "/***PS3***/" + wire
+			}
+			out := filepath.Join(base, "out", "t.iso")
+			code, _, stderr, err := runTool(append(args, arg, out), env, base, "", tmo)
+			r.Transition(1)
+			if err != nil || code != 0 {
+				viol("make-iso-failed", sprintf("%s: exit %d err %v stderr %s", key, code, err, lastLines(stderr, 3)), rep)
+				continue
+			}
+			tool, _ := os.ReadFile(out)
+			served, _, why := serveWhole(t, root, pre)
+			r.Transition(1)
+			if why != "" {
+				viol("served-image-unreadable", key+": "+why, rep)
+				continue
+			}
+			if d := maskedEqual(tool, served, isoVarMask(ps3)); d != "" {
+				viol("make-iso-differs-from-served-image:spelling", sprintf("%s (%q): make-iso output vs the image served as %s: %s", key, arg, pre, d), rep)
+				continue
+			}
+			r.Outcome("make-iso-spelling-ok")
+			_ = si
+		}
 	}
 	// a member file that is appended to while make-iso is writing (its output goes to a pipe that is read slowly, so the
 	// tool is held inside the first member when the others grow): the image is that of the tree as it was scanned -
